@@ -1,6 +1,5 @@
 (* refcount: the monitors tied to the model, part 16: the Access books "inside the callback" / "invalidated since the
-   invocation started", and the clauses 10.4 (the callback is invoked with the current value) and 10.5 (an invalidated
-   invocation's context is cancelled). *)
+   invocation started" (the clauses 10.4 - 10.7 themselves, for every configuration: ProofsMon22.v). *)
 From Util Require Import Common.Base Common.ListLemmas RefCount.Model RefCount.Spec RefCount.Proofs RefCount.ProofsC08 RefCount.ProofsC08b
   RefCount.ProofsC09 RefCount.ProofsC10 RefCount.ProofsC10a RefCount.ProofsC10b RefCount.ProofsCodec RefCount.ProofsMon RefCount.ProofsMon2 RefCount.ProofsMon3
   RefCount.ProofsMon4 RefCount.ProofsMon5 RefCount.ProofsMon6 RefCount.ProofsMon7 RefCount.ProofsMonG RefCount.ProofsMon8 RefCount.ProofsMon9 RefCount.ProofsMon10
@@ -136,7 +135,7 @@ Section JudgePieces.
   Definition j_inv (i : nat) (acb ainv : bool) (code : N) : bool :=
     if j_started i acb code then false else ainv || (acb && match u_lost m e p with Some _ => true | None => false end).
   Definition j_c4 (i : nat) (acb : bool) (code v : N) : list (nat * nat) :=
-    fails 10 4 (negb (j_started i acb code) || match u_cur m e p with Some (g, e0) => N.eqb e0 0 && N.eqb v (u_vof m g) | None => false end).
+    fails 10 4 (negb (j_started i acb code) || match u_cur m e p with Some (g, e0) => N.eqb e0 0 && N.eqb v (u_vofe m e g) | None => false end).
   Definition j_c5 (i : nat) (acb ainv : bool) (code hh : N) : list (nat * nat) :=
     fails 10 5 (negb (N.eqb code 6 && j_inv i acb ainv code) || nz hh).
 
@@ -152,109 +151,3 @@ Section JudgePieces.
     repeat (apply in_app_or in H; destruct H as [H|H]); apply fails_in0 in H; subst pc; auto.
   Qed.
 End JudgePieces.
-
-Section AccClauses.
-  Variables (m : mst) (h : hst) (e : list N) (e0 : ev) (rets : list N).
-  Hypothesis HRh : HR h.
-  Hypothesis HP : Rproj m h.
-  Hypothesis Hd : dec h e e0 rets.
-  Hypothesis Hc : hconst h = false.
-  Hypothesis Hcur : m_cur m = cur_of (hs h).
-  Hypothesis HA : Racc m (hs h).
-  Local Notation s := (hs h).
-  Local Notation s1 := (step repaired (hs h) e0).
-  Local Notation s' := (settle (step repaired (hs h) e0)).
-  Local Notation p := (pobs_of rets (settle (step repaired (hs h) e0)) (hrel h)).
-  Local Notation h' := {| hs := settle (step repaired (hs h) e0); hrel := length (rellog (settle (step repaired (hs h) e0))); hconst := hconst h |}.
-
-  Lemma lost_resolved g : u_lost m e p = Some g -> resolved s = true.
-  Proof.
-    unfold u_lost, u_lost0. rewrite Hcur. unfold cur_of at 1 2. destruct (resolved s); [reflexivity|]. destruct Hd; discriminate.
-  Qed.
-
-  Lemma acc_row i : i < length (conss s') -> ck (getc s' i) = CKAccess ->
-    forall code v e1 hh f1 f2, ccode6 (getc s' i) = (code, v, e1, hh, f1, f2) ->
-    N.eqb code 6 = is_cb (cpcv (getc s' i)) /\
-    j_c4 m e p i (nth i (m_acb m) false) code v = [] /\
-    j_c5 m e p i (nth i (m_acb m) false) (nth i (m_ainv m) false) code hh = [] /\
-    (j_inv m e p i (nth i (m_acb m) false) (nth i (m_ainv m) false) code = true -> is_cb (cpcv (getc s' i)) = true ->
-     ac_nonce (getc s' i) <> ac_snap (getc s' i)).
-  Proof.
-    intros Hi Hk code v e1 hh f1 f2 Ec. unfold ccode6 in Ec.
-    pose proof (HRh' h e e0 rets HRh Hd) as HR'.
-    assert (NotCb : is_cb (cpcv (getc s' i)) = false -> N.eqb code 6 = false ->
-              N.eqb code 6 = is_cb (cpcv (getc s' i)) /\ j_c4 m e p i (nth i (m_acb m) false) code v = [] /\
-              j_c5 m e p i (nth i (m_acb m) false) (nth i (m_ainv m) false) code hh = [] /\
-              (j_inv m e p i (nth i (m_acb m) false) (nth i (m_ainv m) false) code = true -> is_cb (cpcv (getc s' i)) = true ->
-               ac_nonce (getc s' i) <> ac_snap (getc s' i))).
-    { intros E1 E2. unfold j_c4, j_c5, j_started. rewrite E1, E2. cbn [andb negb orb fails]. repeat split; auto. intros _ H. discriminate H. }
-    destruct (cpcv (getc s' i)) as [| |v1 e2 h1|v0| |code0] eqn:Ep; inversion Ec; subst; try (apply NotCb; reflexivity).
-    (* inside the callback *)
-    clear NotCb. split; [reflexivity|]. unfold j_c4, j_c5, j_inv, j_started. cbn [N.eqb Pos.eqb andb is_cb].
-    pose proof (dec_mine h e e0 rets i Hd) as Mine. fold (j_mine e i) in Mine.
-    destruct (negb (nth i (m_acb m) false) || j_mine e i) eqn:St.
-    - (* a fresh invocation *)
-      assert (Hs : nth i (m_acb m) false = false \/ exists res, e0 = ECbReturn i res).
-      { apply orb_true_iff in St. destruct St as [St|St]; [left; now apply negb_true_iff | right; now apply Mine]. }
-      destruct (started_fresh m h e e0 rets Hd HA i Hi Hk ltac:(now rewrite Ep) Hs) as [Fc Fn].
-      destruct (HR_cur_val h' i v0 HR' Hi Hk Ep Fc) as [Er [Ev Ee]]. cbn [hs] in Er, Ev, Ee.
-      rewrite (upd_cur m h e e0 rets HRh HP Hd Hc Hcur). unfold cur_of. rewrite Er, Ee. unfold u_vof. rewrite (rp_const m h HP), Hc.
-      pose proof (HR_inv h' HR' Hc) as [[_ [_ [_ [_ [[V1 _] _]]]]] _]. cbn [hs] in V1. destruct (V1 Er) as [[Hv|[_ Hv]] _]; [|congruence].
-      rewrite <- Ev, Hv, nn_S, !N.eqb_refl. cbn [negb orb andb fails]. repeat split; auto. intros H; discriminate H.
-    - (* the invocation was running before this event and has not returned *)
-      apply orb_false_iff in St. destruct St as [Sa Sm]. apply negb_false_iff in Sa.
-      assert (Hn : forall res, e0 <> ECbReturn i res).
-      { intros res E. assert (T : j_mine e i = true) by (apply Mine; eauto). congruence. }
-      destruct (running_cb m h e e0 rets Hd HA i Hi Hk ltac:(now rewrite Ep) Sa Hn) as [Hl [Hk0 [Hp0 [_ [Esn Enon]]]]].
-      cbn [negb orb fails]. split; [reflexivity|].
-      assert (Moved : (nth i (m_ainv m) false || (nth i (m_acb m) false && match u_lost m e p with Some _ => true | None => false end)) = true ->
-                      ac_nonce (getc s' i) <> ac_snap (getc s' i)).
-      { intros Hinv. pose proof (HR_acc_ok h i HRh) as [K0 _]. apply orb_true_iff in Hinv. destruct Hinv as [Hinv|Hinv].
-        - pose proof (ra_ainv m s HA i Hinv Hk0 Hp0) as Hne. destruct Enon as [[_ E]|E]; lia.
-        - apply andb_true_iff in Hinv. destruct Hinv as [_ Hl0]. destruct (u_lost m e p) as [g|] eqn:El; [|discriminate].
-          pose proof (lost_resolved g El) as Er0. pose proof (lost_unresolved m h e e0 rets HRh HP Hd Hc Hcur g El) as Er1.
-          assert (At0 : attached_pc (cpcv (getc s i)) = true) by (destruct (cpcv (getc s i)); try discriminate Hp0; reflexivity).
-          destruct (HR_mirror h i HRh Hl Hk0 At0) as [M0 _]. destruct (HR_mirror h' i HR' Hi Hk ltac:(cbn [hs]; now rewrite Ep)) as [M1 _]. cbn [hs] in M1.
-          destruct Enon as [[Ea _]|E]; [|lia]. unfold acont in Ea. inversion Ea. congruence. }
-      split.
-      + destruct (nth i (m_ainv m) false || _) eqn:Hinv; [|reflexivity]. specialize (Moved eq_refl).
-        pose proof (HR_acc_ok h' i HR') as [_ K1]. cbn [hs] in K1. rewrite Ep in K1. destruct K1 as [K1 _].
-        destruct (ac_cbcanc (getc s' i)) eqn:Ecb; [reflexivity | exfalso; exact (Moved (K1 eq_refl))].
-      + intros Hinv _. exact (Moved Hinv).
-  Qed.
-
-  (* no Access row fails clause 10.4 or 10.5 *)
-  Lemma clauses_10_4_5 pc : In pc (u_facc m e p) -> pc <> (10, 4) /\ pc <> (10, 5).
-  Proof.
-    unfold u_facc, u_judged. intros H. apply in_concat in H. destruct H as [l [Hl Hin]]. apply in_map_iff in Hl. destruct Hl as [j [<- Hj]].
-    apply in_map_iff in Hj. destruct Hj as [row [<- Hrow]]. destruct (rows_in m h e e0 rets HP Hd row Hrow) as [i [Hi ->]].
-    unfold row_of in Hin. destruct (ccode6 (getc s' i)) as [[[[[code v] e1] hh] f1] f2] eqn:Ec.
-    destruct (judge_shape m e p i (nth i (m_acb m) false) (nth i (m_acanc m) false) (nth i (m_ainv m) false) (nth i (m_ccanc m) false)
-                (nth i (m_adec m) None) (ckcode (ck (getc s' i))) (cref (getc s' i)) (ccanc (getc s' i)) code v e1 hh f1 f2) as [adec' [rest [Ej Hrest]]].
-    rewrite Ej in Hin. destruct (ck (getc s' i)) eqn:Hk; cbn [ckcode N.eqb Pos.eqb negb] in Hin; try (destruct Hin).
-    destruct (acc_row i Hi Hk code v e1 hh f1 f2 Ec) as [_ [C4 [C5 _]]]. rewrite C4, C5 in Hin. cbn [app] in Hin.
-    destruct (Hrest pc Hin) as [->| ->]; split; discriminate.
-  Qed.
-
-  Lemma upd_acc : Racc (u_mst m e p) s'.
-  Proof.
-    constructor; cbn [m_acb m_ainv u_mst].
-    - intros i. destruct (Nat.lt_ge_cases i (length (conss s'))) as [Hi|Hi].
-      + rewrite (nth_error_nth_d _ _ false _ (nth_error_map_some _ _ _ _ (judged_nth m h e e0 rets HP Hd i Hi))). unfold row_of.
-        destruct (ccode6 (getc s' i)) as [[[[[code v] e1] hh] f1] f2] eqn:Ec.
-        destruct (judge_shape m e p i (nth i (m_acb m) false) (nth i (m_acanc m) false) (nth i (m_ainv m) false) (nth i (m_ccanc m) false)
-                    (nth i (m_adec m) None) (ckcode (ck (getc s' i))) (cref (getc s' i)) (ccanc (getc s' i)) code v e1 hh f1 f2) as [adec' [rest [Ej _]]].
-        rewrite Ej. destruct (ck (getc s' i)) eqn:Hk; cbn [ckcode N.eqb Pos.eqb negb]; try reflexivity.
-        apply (acc_row i Hi Hk code v e1 hh f1 f2 Ec).
-      + rewrite nth_overflow by (rewrite map_length, (judged_len m h e e0 rets HP Hd); exact Hi). unfold getc. now rewrite nth_overflow.
-    - intros i Hinv Hk Hp.
-      assert (Hi : i < length (conss s')).
-      { destruct (Nat.lt_ge_cases i (length (conss s'))) as [H|H]; [exact H|]. unfold getc in Hk. rewrite nth_overflow in Hk by exact H. discriminate. }
-      rewrite (nth_error_nth_d _ _ false _ (nth_error_map_some _ _ _ _ (judged_nth m h e e0 rets HP Hd i Hi))) in Hinv. unfold row_of in Hinv.
-      destruct (ccode6 (getc s' i)) as [[[[[code v] e1] hh] f1] f2] eqn:Ec.
-      destruct (judge_shape m e p i (nth i (m_acb m) false) (nth i (m_acanc m) false) (nth i (m_ainv m) false) (nth i (m_ccanc m) false)
-                  (nth i (m_adec m) None) (ckcode (ck (getc s' i))) (cref (getc s' i)) (ccanc (getc s' i)) code v e1 hh f1 f2) as [adec' [rest [Ej _]]].
-      rewrite Ej, Hk in Hinv. cbn [ckcode N.eqb Pos.eqb negb] in Hinv.
-      destruct (acc_row i Hi Hk code v e1 hh f1 f2 Ec) as [_ [_ [_ R4]]]. exact (R4 Hinv Hp).
-  Qed.
-End AccClauses.
